@@ -61,7 +61,7 @@ CHECKS = {
          "Exploration: generated instantiate messages (repeated addresses, zero amounts, invalid metadata) and sequences of all cw20 operations by arbitrary principals with amounts around balances / allowances and expirations crossed by clock moves; whatever the reference ledger forbids must be rejected, an accepted operation must have exactly the ledger's effect, the enumerated balances must sum to the total supply in every state, the minter must stay the hub and every stSei burn / bSei allowance burn must carry a hub CheckSlashing.",
          "DESIGN.md 5 C18"),
  "C10": ("enumeration + property-based testing (proptest): every privileged execute variant x sender class x state kind with generated payloads must be rejected for non-principals; SetOwner / AcceptOwnership sequences against a reference (owner, nominee) model",
-         "Exploration (full enumeration of 40 privileged variants x 16 sender classes x 5 state kinds x payloads, plus generated triples and ownership sequences): a privileged message from any sender class other than its designated principal must fail and change nothing; ownership queries must follow the reference model, only the owner nominates, only the nominee accepts, an ex-owner has no power, token addresses cannot be re-set. A vacuity guard counts that each variant's principal gets past the sender check.",
+         "Exploration (full enumeration of 40 privileged variants x 16 sender classes x 6 state kinds incl. staged (partially wired) deployments x payloads, plus generated triples and ownership sequences): a privileged message from any sender class other than its designated principal must fail and change nothing; ownership queries must follow the reference model, only the owner nominates, only the nominee accepts, an ex-owner has no power, token addresses cannot be re-set. A vacuity guard counts that each variant's principal gets past the sender check.",
          "DESIGN.md 5 C10"),
  "C11": ("enumeration + metamorphic property-based testing (proptest): every hub message x sender class while paused must fail without effect; legacy wait-list entries injected in the old storage layout; history vs history-with-inserted-pause-cycle equality",
          "Exploration (enumeration of 17 hub message variants x 16 sender classes x 4 state kinds, generated legacy wait lists and migration limits, generated metamorphic pairs): while paused everything but the owner's UpdateParams and the migration fails and changes nothing, queries answer as before, the hub cannot be unpaused while legacy entries remain and migration loses none; inserting pause / blocked attempts / unpause anywhere in a history changes neither later results nor the final state.",
